@@ -113,3 +113,73 @@ def Obj.run (o : Obj) : List HOp → Obj × List (List Val)
     (o2, a :: as)
 
 end SC
+
+/-! ## several objects: which operations create, which mutate (C13) -/
+namespace SC
+open Stairs
+
+/-- operations of a multi-object history; operands are object indices -/
+inductive WOp
+  | new (f : Stairs Rat)                         -- constructor / from_values
+  | copy (i : Nat)
+  | un (u : UnOp) (i : Nat)
+  | bin (o : BinOp) (i j : Nat)
+  | binR (o : BinOp) (i : Nat) (c : Val)
+  | binL (o : BinOp) (c : Val) (j : Nat)
+  | clip (i : Nat) (lo hi : Option Rat)
+  | maskT (i : Nat) (lo hi : Option Rat)
+  | mask (i j : Nat)
+  | wher (i j : Nat)
+  | fillS (i j : Nat)
+  | fillC (i : Nat) (v : Val)
+  | ffill (i : Nat)
+  | bfill (i : Nat)
+  | shift (i : Nat) (d : Rat)
+  | agg (F : AggFn) (is : List Nat)
+  | layer (i : Nat) (ts : List (Triple Rat))
+  | query (i : Nat) (q : Query)
+
+abbrev World := List Obj
+
+def World.fn (w : World) (i : Nat) : Option (Stairs Rat) := (w[i]?).map (·.f)
+
+def allSomeW {α : Type} : List (Option α) → Option (List α)
+  | [] => some []
+  | none :: _ => none
+  | some x :: r => (allSomeW r).map (x :: ·)
+
+/-- the function computed by a creating operation (`none`: not a creating operation, or a bad index) -/
+def World.compute (w : World) : WOp → Option (Except Err (Stairs Rat))
+  | .new f => some (.ok f.canon)
+  | .copy i => (w.fn i).map .ok
+  | .un u i => (w.fn i).map fun f => .ok (unop u f)
+  | .bin o i j => do let f ← w.fn i; let g ← w.fn j; pure (binop o f g)
+  | .binR o i c => (w.fn i).map fun f => binop o f (const c f.closed)
+  | .binL o c j => (w.fn j).map fun g => binop o (const c g.closed) g
+  | .clip i lo hi => (w.fn i).map fun f => Stairs.clip f lo hi
+  | .maskT i lo hi => (w.fn i).map fun f => .ok (maskTuple f lo hi)
+  | .mask i j => do let f ← w.fn i; let g ← w.fn j; pure (Stairs.mask f g)
+  | .wher i j => do let f ← w.fn i; let g ← w.fn j; pure (where_ f g)
+  | .fillS i j => do let f ← w.fn i; let g ← w.fn j; pure (fillnaStairs f g)
+  | .fillC i v => (w.fn i).map fun f => .ok (fillnaScalar f v)
+  | .ffill i => (w.fn i).map fun f => .ok (Stairs.ffill f)
+  | .bfill i => (w.fn i).map fun f => .ok (Stairs.bfill f)
+  | .shift i d => (w.fn i).map fun f => .ok (Stairs.shift f d)
+  | .agg F is => (allSomeW (is.map w.fn)).map fun ms => aggregate F ms
+  | .layer _ _ => none
+  | .query _ _ => none
+
+/-- one step: a creating operation appends a *fresh* object (nothing else changes; an error changes
+nothing at all); `layer` updates its receiver in place; a query may only fill its receiver's caches -/
+def World.step (w : World) (op : WOp) : World :=
+  match op with
+  | .layer i ts => w.modify i (·.layer ts)
+  | .query i q => w.modify i (fun o => (o.query q).1)
+  | _ =>
+    match w.compute op with
+    | some (.ok r) => w ++ [Obj.fresh r]
+    | _ => w
+
+def World.run (w : World) (ops : List WOp) : World := ops.foldl World.step w
+
+end SC
